@@ -66,6 +66,9 @@ pub struct Profile {
     /// percentage of cases in which later connections plan a small Maximum Packet Size (5..20);
     /// the broker model applies it only where everything the client may retain still fits
     pub shrink_mps_pct: u32,
+    /// percentage of cases in which every request of a kind has the same content (an application
+    /// that publishes the same message again and again): identical packets on the wire
+    pub twins_pct: u32,
 }
 
 impl Default for Profile {
@@ -118,6 +121,7 @@ impl Default for Profile {
             vary_rm_pct: 25,
             session_expiry: vec![3600, 3600, 3600, 3600, 1, 0, u32::MAX],
             shrink_mps_pct: 15,
+            twins_pct: 5,
         }
     }
 }
@@ -472,8 +476,38 @@ pub fn case(p: &Profile) -> BoxedStrategy<Case> {
         ]
         .boxed()
     };
-    (cfg(p), pct(p.auto_broker_pct), prop::collection::vec(conn_script(p), p.conns.0..=p.conns.1), pct(p.vary_rm_pct), shrink)
-        .prop_map(|(cfg, auto, mut conns, vary_rm, shrink)| {
+    (cfg(p), pct(p.auto_broker_pct), prop::collection::vec(conn_script(p), p.conns.0..=p.conns.1), pct(p.vary_rm_pct), shrink, pct(p.twins_pct))
+        .prop_map(|(cfg, auto, mut conns, vary_rm, shrink, twins)| {
+            if twins {
+                for c in conns.iter_mut() {
+                    for st in c.steps.iter_mut() {
+                        match st {
+                            Step::Publish(ps) => {
+                                ps.topic = TopicSpec::new(1, 0);
+                                ps.payload = PayloadSpec::new(0, 0);
+                                ps.props.clear();
+                                ps.correlate = None;
+                                ps.retain = false;
+                            }
+                            Step::Subscribe { filters, props, .. } => {
+                                filters.truncate(1);
+                                if let Some(f) = filters.first_mut() {
+                                    *f = (TopicSpec::new(1, 0), SubOpts { qos: 1, no_local: false, rap: false, retain_handling: 0 });
+                                }
+                                props.clear();
+                            }
+                            Step::Unsubscribe { filters, props, .. } => {
+                                filters.truncate(1);
+                                if let Some(f) = filters.first_mut() {
+                                    *f = TopicSpec::new(1, 0);
+                                }
+                                props.clear();
+                            }
+                            _ => {}
+                        }
+                    }
+                }
+            }
             // one broker: its limits do not change between the connections of a case
             if let Some(first) = conns.first().map(|c| c.connect.props.clone()) {
                 for c in conns.iter_mut().skip(1) {
